@@ -120,6 +120,9 @@ def run(ctx: Ctx) -> None:
             lines.append(f"    P_{fi + j} = {s}")
         files[f"q{fi // per}.py"] = "\n".join(lines) + "\n"
     found, errs, td = TC.harvest(files)
+    if getattr(TC.harvest, "skipped", None):
+        ctx.count("statements-mypy-itself-crashed-on", len(TC.harvest.skipped))
+        ctx.notes.append("generated statements removed because mypy hit its own INTERNAL ERROR on them: " + " | ".join(x.strip()[:160] for x in TC.harvest.skipped[:3]))
     try:
         if errs:
             ctx.obligation("probe corpus builds under mypy", False, errs[0][:300])
